@@ -50,7 +50,7 @@ def decythonise(src, name="<pyx>"):
     def fix_header(m):
         indent, fname, args = m.group(1), m.group(2), m.group(3)
         new_args = []
-        for a in args.split(","):
+        for a in re.split(r",(?![^\[]*\])", args):      # commas inside double[:, :] do not separate
             a = a.strip()
             if not a:
                 continue
@@ -90,7 +90,57 @@ def decythonise(src, name="<pyx>"):
 
 
 PYX = ["cython_get_tau", "cython_profiles", "cython_distances", "cython_add",
-       "cython_directionality"]
+       "cython_directionality", "cython_simulated_annealing"]
+
+MEMVIEW = re.compile(r"\b(?:double|int|long|float)\s*\[\s*:\s*(?:,\s*:\s*)*\]\s+(\w+)")
+
+
+def memview_names(src):
+    """names declared as typed memoryviews (double[:] x, long[:] p, double[:, :] D) in a .pyx text"""
+    return set(MEMVIEW.findall(src))
+
+
+class CythonUB(Exception):
+    """an index outside 0..n-1 on a typed memoryview: every .pyx file is compiled with
+    boundscheck=False and wraparound=False, so the compiled module would read or write outside
+    the buffer (undefined behaviour) where Python semantics wrap around or raise IndexError"""
+    pass
+
+
+def _ix(i, a, axis=0):
+    try:
+        n = a.shape[axis]
+    except Exception:
+        return i
+    if isinstance(i, int) or (hasattr(i, "dtype") and getattr(i.dtype, "kind", "") in "iu" and getattr(i, "ndim", 1) == 0):
+        if not isinstance(i, bool) and not (0 <= i < n):
+            raise CythonUB("index %d outside 0..%d (boundscheck=False, wraparound=False)" % (int(i), n - 1))
+    return i
+
+
+class _Bounds(__import__("ast").NodeTransformer):
+    """wrap every integer subscript of a typed memoryview in the bounds test [_ix]"""
+
+    def __init__(self, names):
+        self.names = names
+
+    def visit_Subscript(self, node):
+        import ast
+        self.generic_visit(node)
+        if not (isinstance(node.value, ast.Name) and node.value.id in self.names):
+            return node
+        base = node.value.id
+
+        def wrap(e, k):
+            if isinstance(e, ast.Slice):
+                return e
+            return ast.Call(func=ast.Name(id="_ix", ctx=ast.Load()),
+                            args=[e, ast.Name(id=base, ctx=ast.Load()), ast.Constant(value=k)], keywords=[])
+        if isinstance(node.slice, ast.Tuple):
+            node.slice = ast.Tuple(elts=[wrap(e, k) for k, e in enumerate(node.slice.elts)], ctx=ast.Load())
+        else:
+            node.slice = wrap(node.slice, 0)
+        return node
 
 
 class _CDiv(__import__("ast").NodeTransformer):
@@ -142,7 +192,12 @@ def _prelude():
 
     def fmin(a, b):
         return b if b < a else a
-    return {"fabs": fabs, "fmax": fmax, "fmin": fmin, "np": np, "_cdiv": _cdiv}
+
+    def rand():
+        raise RuntimeError("rand() is scripted by the harness (adapters.py, routine 95)")
+    import math
+    return {"fabs": fabs, "fmax": fmax, "fmin": fmin, "np": np, "_cdiv": _cdiv, "_ix": _ix,
+            "exp": math.exp, "rand": rand, "RAND_MAX": 1}
 
 
 def install_cython(repo=REPO):
@@ -155,13 +210,14 @@ def install_cython(repo=REPO):
         with open(path) as f:
             text = f.read()
         code = decythonise(text, name)
+        views = memview_names(text)
         mod = types.ModuleType("pyspike.cython." + name)
         mod.__dict__.update(_prelude())
         mod.__file__ = path
         if name != "cython_get_tau":
             mod.__dict__["get_tau"] = mods["cython_get_tau"].get_tau
         import ast
-        tree = _CDiv().visit(ast.parse(code, path))
+        tree = _Bounds(views).visit(_CDiv().visit(ast.parse(code, path)))
         ast.fix_missing_locations(tree)
         exec(compile(tree, path, "exec"), mod.__dict__)
         sys.modules["pyspike.cython." + name] = mod
